@@ -50,6 +50,39 @@ func genC11(r *Rand) *VariantCase {
 		p.Stmts = st
 		defs = append(defs, extra...)
 	}
+	// a name defined twice: every use stands for the definition in force above it
+	if r.Chance(1, 3) {
+		a, b := Pick(r, []int64{2, 0x7f, -128, 0x100}), Pick(r, []int64{3, 0x80, -129, 0x7f, 0xffff})
+		use := func(v int64) []PStmt {
+			lit := spellInt(v, r.Intn(2))
+			forms := []string{"\tDW %s", "\tMOV CX,%s", "\tADD SI,%s", "\tMOV AL,[BX+%s]", "\tDD %s+1", "\tCMP DX,%s"}
+			if mode == 32 {
+				forms[3] = "\tMOV AL,[EBX+%s]"
+			}
+			Shuffle(r, forms)
+			var out []PStmt
+			for _, f := range forms[:r.Range(1, 3)] {
+				out = append(out, PStmt{K: "raw", Text: fmt.Sprintf(f, "RDEF"), Alt: fmt.Sprintf(f, lit)})
+			}
+			return out
+		}
+		k := 0
+		for k < len(p.Stmts) && (p.Stmts[k].K == "org" || p.Stmts[k].K == "bits") {
+			k++
+		}
+		mid := k + (len(p.Stmts)-k)/2
+		for mid < len(p.Stmts)-1 && (p.Stmts[mid].K == "resbto" || p.Stmts[mid-1].K == "resbto") {
+			mid++
+		}
+		st := append([]PStmt{}, p.Stmts[:k]...)
+		st = append(st, PStmt{K: "equ", Label: "RDEF", Text: spellInt(a, r.Intn(2)), Tag: "EQU"})
+		st = append(st, use(a)...)
+		st = append(st, p.Stmts[k:mid]...)
+		st = append(st, PStmt{K: "equ", Label: "RDEF", Text: spellInt(b, r.Intn(2)), Tag: "EQU"})
+		st = append(st, use(b)...)
+		st = append(st, p.Stmts[mid:]...)
+		p.Stmts = st
+	}
 	src := p.Source()
 	// inlined variant: every name replaced by its parenthesised defining expression, EQU lines removed
 	dm := map[string]*Expr{}
@@ -74,6 +107,11 @@ func genC11(r *Rand) *VariantCase {
 		}
 	}
 	q := stripKinds(p, "equ")
+	for i := range q.Stmts {
+		if q.Stmts[i].K == "raw" && q.Stmts[i].Alt != "" {
+			q.Stmts[i].Text = q.Stmts[i].Alt
+		}
+	}
 	inl := renameIdents(q.Source(), sub)
 	// a program consisting only of the definitions must emit nothing: compared with an empty-code program of the same prologue
 	var onlyDefs strings.Builder
